@@ -4,6 +4,11 @@ sys.path.insert(0, os.path.dirname(os.path.abspath(__file__)))
 import core
 man = json.load(open(os.path.join(core.VERIF, 'MANIFEST.json')))
 pids = [c['property_id'] for c in man['checks']]
+# fresh restore: remove stale build output so that the whole claimed development is rebuilt from its sources
+for root, _, files in os.walk(core.COQ):
+    for f in files:
+        if f.endswith(('.vo', '.vok', '.vos', '.glob', '.aux')):
+            os.remove(os.path.join(root, f))
 ok, out, files = core.coq_build(pids)
 print(out[-3000:])
 print('built %d files for %s: %s' % (len(files), pids, 'OK' if ok else 'FAILED'))
